@@ -284,6 +284,36 @@ func TestParallelRender(t *testing.T) {
 				rec.Violation(t, "C10:"+class+":lattice-nodes-not-evaluated-on-this-shape", "%s, %d cells: the renderer sampled a %dx%dx%d lattice but only %d of its %d nodes were evaluated on the shape being rendered", desc, cells, len(ax.X), len(ax.Y), len(ax.Z), len(uniq), want)
 			}
 		}
+		// the same shape object rendered by several renders at once (a program that writes an STL and
+		// a 3MF of one part in parallel): its Evaluate is then called by the workers on behalf of all of
+		// them; every render must deliver the mesh of the solo render
+		if k := rapid.IntRange(0, 3).Draw(t, "simultaneous-renders"); k >= 2 {
+			out := make([][]*sdf.Triangle3, k)
+			var wg sync.WaitGroup
+			for i := range out {
+				wg.Add(1)
+				go func(i int) {
+					defer wg.Done()
+					out[i] = render.ToTriangles(s, render.NewMarchingCubesUniform(cells))
+				}(i)
+			}
+			wg.Wait()
+			for i := range out {
+				ok := len(out[i]) == len(ts)
+				for j := 0; ok && j < len(ts); j++ {
+					for c := 0; c < 3; c++ {
+						a, b := out[i][j][c], ts[j][c]
+						if !same(a.X, b.X) || !same(a.Y, b.Y) || !same(a.Z, b.Z) {
+							ok = false
+						}
+					}
+				}
+				if !ok {
+					rec.Violation(t, "C10:"+class+":simultaneous-renders-differ-from-solo-render", "%s, %d cells: render %d of %d simultaneous renders of the one object returned %d triangles that are not the %d of the solo render", desc, cells, i, k, len(out[i]), len(ts))
+				}
+			}
+			rec.Add("render:simultaneous-renders-of-one-object", int64(k))
+		}
 		rec.Case(pw.Overlap > 0, ev.Key(class, desc, cells), "render:"+class)
 		rec.Sample("render:"+class, map[string]any{"class": class, "shape": desc, "cells": cells, "triangles": len(ts), "evaluations": len(rb.Pts), "overlapping_evaluations": pw.Overlap})
 	})
